@@ -824,3 +824,61 @@ def cap_text(c, codes):
         if a == "deflayer":
             return "(defsrc a)\n" + "".join("(deflayer l%d a)\n" % i for i in range(t))
     raise ToolError("unknown capacity case %r" % (c,))
+
+
+# ------------------------------------------------------------------ modifier prefixes (spec/CfgPrefixes.tla)
+UNI_PREFIX = {"uLS": "‹⇧", "uRS": "⇧›", "uLC": "‹⎈", "uRC": "⎈›", "uLM": "‹◆", "uRM": "◆›",
+              "uLA": "‹⎇", "uRA": "⎇›", "uC": "⎈"}
+PFX_FRAMES = {
+    "action": "(defsrc a b)\n(deflayer base %s b)\n",
+    "multi": "(defsrc a b)\n(deflayer base (multi %s c) b)\n",
+    "tap-hold-tap": "(defsrc a b)\n(deflayer base (tap-hold 200 200 %s c) b)\n",
+    "tap-hold-hold": "(defsrc a b)\n(deflayer base (tap-hold 200 200 c %s) b)\n",
+    "tap-dance": "(defsrc a b)\n(deflayer base (tap-dance 200 (%s c)) b)\n",
+    "one-shot": "(defsrc a b)\n(deflayer base (one-shot 500 %s) b)\n",
+    "macro": "(defsrc a b)\n(deflayer base (macro %s c) b)\n",
+    "macro-in-group": "(defsrc a b)\n(deflayer base (macro A-(%s c) d) b)\n",
+    "macro-release-cancel": "(defsrc a b)\n(deflayer base (macro-release-cancel c %s 10 d) b)\n",
+    "defseq-first": "(defsrc a b)\n(deflayer base sldr b)\n(defvirtualkeys v x)\n(defseq v (%s b))\n",
+    "defseq-last": "(defsrc a b)\n(deflayer base sldr b)\n(defvirtualkeys v x)\n(defseq v (b %s))\n",
+    "defseq-only": "(defsrc a b)\n(deflayer base sldr b)\n(defvirtualkeys v x)\n(defseq v (%s))\n",
+    "override-in": "(defsrc a b)\n(deflayer base a b)\n(defoverrides (%s) (c))\n",
+    "override-out": "(defsrc a b)\n(deflayer base a b)\n(defoverrides (lsft a) (%s))\n",
+    "unmod": "(defsrc a b)\n(deflayer base (unmod %s) b)\n",
+    "unshift": "(defsrc a b)\n(deflayer base (unshift %s) b)\n",
+    "zippy-output": "(defsrc a b)\n(deflayer base a b)\n(defzippy f output-character-mappings (x %s))\n",
+    "zippy-file": "(defsrc a b)\n(deflayer base a b)\n(defzippy f)\n",
+    "defchords-action": "(defsrc a b)\n(deflayer base (chord g k1) (chord g k2))\n(defchords g 100 (k1) a (k2) b (k1 k2) %s)\n",
+    "defchords-key": "(defsrc a b)\n(deflayer base (chord g %s) b)\n(defchords g 100 (%s) c)\n",
+    "chordsv2-action": "(defcfg concurrent-tap-hold yes)\n(defsrc a b)\n(deflayer base a b)\n(defchordsv2 (a b) %s 100 all-released ())\n",
+    "chordsv2-key": "(defcfg concurrent-tap-hold yes)\n(defsrc a b)\n(deflayer base a b)\n(defchordsv2 (%s b) c 100 all-released ())\n",
+    "switch-match": "(defsrc a b)\n(deflayer base (switch (%s) c break) b)\n",
+    "switch-action": "(defsrc a b)\n(deflayer base (switch (a) %s break) b)\n",
+    "alias": "(defsrc a b)\n(defalias kva %s)\n(deflayer base @kva b)\n",
+    "variable": "(defsrc a b)\n(defvar kvv %s)\n(deflayer base $kvv b)\n",
+    "fork-keys": "(defsrc a b)\n(deflayer base (fork a c (%s)) b)\n",
+    "release-key": "(defsrc a b)\n(deflayer base (release-key %s) b)\n",
+    "caps-word-keys": "(defsrc a b)\n(deflayer base (caps-word-custom 2000 (%s) (c)) b)\n",
+    "defsrc": "(defsrc %s b)\n(deflayer base a b)\n",
+    "deflayermap-key": "(defsrc a b)\n(deflayermap (base) %s c)\n",
+    "sequence-noerase": "(defsrc a b)\n(deflayer base (sequence-noerase 2) b)\n(defvirtualkeys v x)\n(defseq v (a %s))\n",
+}
+
+
+def prefix_text(pre, pos, form):
+    """The text and files of one case of CfgPrefixes."""
+    p = "".join(UNI_PREFIX.get(x, x) for x in pre)
+    x = {"key": p + "a", "group": p + "(a b)", "bare": p}[form]
+    if pos not in PFX_FRAMES:
+        raise ToolError("unknown prefix position %r" % pos)
+    fr = PFX_FRAMES[pos]
+    files = {}
+    if pos == "zippy-output":
+        files = {"f": "ab\tx\n"}
+        text = fr % x
+    elif pos == "zippy-file":
+        files = {"f": "ab\t%s\ncd\tx%s\n" % (x, x)}
+        text = fr
+    else:
+        text = fr.replace("%s", x)
+    return text, files
